@@ -115,20 +115,29 @@ def roundTrippable (s : Var → Option Value) : Bool :=
 
 def varIndex (v : Var) : Nat := (table.map (·.1)).idxOf v
 
-/-- canonical entry text: '\n'-terminated lines, no '\r', known variables in the fixed order,
-    single-valued variables at most once, integers in canonical decimal form -/
-def canonical (t : Bytes) : Bool :=
-  (t.isEmpty || t.getLast? == some 10) && !t.contains 13 &&
-  let cls := (textLines t).map classify
-  let vars := cls.filterMap fun | .ok v val => some (v, val) | _ => none
-  vars.length == cls.length &&
-  (vars.zip (vars.drop 1)).all (fun (a, b) =>
-    varIndex a.1 < varIndex b.1 || (a.1 == b.1 && multiLine.contains a.1)) &&
+def okOf : LineClass → Option (Var × Bytes)
+  | .ok v val => some (v, val)
+  | _ => none
+
+/-- variables in the fixed order; only multi-line variables may repeat -/
+def chainOk (vars : List (Var × Bytes)) : Bool :=
+  (vars.zip (vars.drop 1)).all fun (a, b) =>
+    varIndex a.1 < varIndex b.1 || (a.1 == b.1 && multiLine.contains a.1)
+
+/-- integers in canonical decimal form -/
+def intsCanon (vars : List (Var × Bytes)) : Bool :=
   vars.all fun (v, val) =>
     !integer.contains v ||
       match M.parseI64? (M.bytesToAsciiStr val) with
       | some n => M.intBytes n == val
       | none => false
+
+/-- canonical entry text: '\n'-terminated lines, no '\r', known variables in the fixed order,
+    single-valued variables at most once, integers in canonical decimal form -/
+def canonical (t : Bytes) : Bool :=
+  (t.isEmpty || t.getLast? == some 10) && !t.contains 13 &&
+  let vars := ((textLines t).map classify).filterMap okOf
+  vars.length == (textLines t).length && chainOk vars && intsCanon vars
 
 /-! ### streams (C09) -/
 
